@@ -363,4 +363,6 @@ VARIANTS = [
     # silent
     V("silent-reordered-variance", GAU, "noise_var = (y_l2 - 2 * s1 + s2) / n_obs.float()", "noise_var = (s2 + y_l2 - s1 - s1) / n_obs.float()", None),
     V("silent-mask-via-product", GAU, "s2 = sum_dim(WeightedTensor(model_x_model, y_x_model.weight))", "s2 = sum_dim(WeightedTensor(model_x_model, state[\"y\"].weight))", None),
+    V("silent-rename-updates", "src/leaspy/models/mcmc_saem_compatible.py", "params_updates", "updates", None, count=3),
+    V("silent-rename-noise-var", "src/leaspy/models/obs_models/_gaussian.py", "noise_var", "variance", None, count=7),
 ]
